@@ -1,5 +1,6 @@
 import Chain33Model.Model.C26
 import Chain33Model.Proofs.C25Lift
+import Chain33Model.Proofs.C25Chain
 /-!
 Invariants of the sequence log: consecutive numbering, append-only, replay = best-chain view.
 All are `MainPred`s, hence hold after delivering *any* blocks in any order.
@@ -127,5 +128,35 @@ theorem recSeq_mainPred (r : Bool) : MainPred (fun s => s.recSeq = r) where
     intro s b s' h hc
     obtain ⟨_, _, sq, _, _, hsq, rfl⟩ := disconnectBlock_ok hc
     rw [← h]; exact (saveSeq_frame hsq).2.2.1
+
+end C26
+
+namespace C26
+open C25
+
+/-- reading the height index `0..tip.height` of a linked chain gives the chain bottom-up. -/
+theorem range_view_linked : ∀ (r : List Block) (t : Block), Linked (t :: r) →
+    (List.range (t.height + 1)).map (view (t :: r)) = ((t :: r).map (fun b => some b.id)).reverse := by
+  intro r
+  induction r with
+  | nil =>
+    intro t h
+    have h0 : t.height = 0 := h
+    simp [h0, view, List.range_succ]
+  | cons p r ih =>
+    intro t h
+    have hh : t.height = p.height + 1 := h.2.1
+    have := ih p h.tail
+    have e1 : (List.map (fun b : Block => some b.id) (t :: p :: r)).reverse =
+        (List.map (fun b : Block => some b.id) (p :: r)).reverse ++ [some t.id] := by
+      simp
+    rw [List.range_succ, List.map_append, e1, ← this]
+    congr 1
+    · rw [hh]
+      apply List.map_congr_left
+      intro k hk
+      simp only [List.mem_range] at hk
+      rw [view_cons_linked, if_neg (by omega)]
+    · simp [view_cons_linked]
 
 end C26
